@@ -98,6 +98,39 @@ def programs(pt):
                       pt.Log(pt.Itob(r.load())), pt.Log(pt.Itob(x.load())),
                       pt.Return(pt.Or(r.load() == (pt.Txn.fee() % pt.Int(100) + pt.Int(1)) * pt.Int(2), r.load() == pt.Txn.fee() % pt.Int(100) + pt.Int(6))))
 
+    @prog("store-assert-then-byref-only")
+    def _():
+        # the variable's ONLY direct load sits right behind its store; every other access goes through the reference
+        @pt.Subroutine(pt.TealType.uint64)
+        def double(v: pt.ScratchVar) -> pt.Expr:
+            return pt.Seq(v.store(v.load() * pt.Int(2)), pt.Return(v.load()))
+        x = pt.ScratchVar(pt.TealType.uint64)
+        return pt.Seq(x.store(pt.Txn.fee() % pt.Int(100) + pt.Int(1)), pt.Assert(x.load() > pt.Int(0)),
+                      pt.Return(double(x) == (pt.Txn.fee() % pt.Int(100) + pt.Int(1)) * pt.Int(2)))
+
+    @prog("store-assert-then-byref-in-branch")
+    def _():
+        @pt.Subroutine(pt.TealType.uint64)
+        def double(v: pt.ScratchVar) -> pt.Expr:
+            return pt.Seq(v.store(v.load() * pt.Int(2)), pt.Return(v.load()))
+        x, r = pt.ScratchVar(pt.TealType.uint64), pt.ScratchVar(pt.TealType.uint64)
+        return pt.Seq(r.store(pt.Int(42)), x.store(pt.Int(21)), pt.Assert(x.load() > pt.Int(0)),
+                      pt.If(pt.Txn.amount() % pt.Int(2) == pt.Int(0)).Then(r.store(double(x))).Else(pt.Seq(r.store(double(x)), pt.Log(pt.Itob(r.load())))),
+                      pt.Return(r.load() == pt.Int(42)))
+
+    @prog("store-assert-then-dynamic-only")
+    def _():
+        d = pt.DynamicScratchVar(pt.TealType.uint64)
+        x = pt.ScratchVar(pt.TealType.uint64)
+        return pt.Seq(d.set_index(x), x.store(pt.Txn.fee() % pt.Int(50) + pt.Int(3)), pt.Assert(x.load() > pt.Int(2)),
+                      pt.Log(pt.Itob(d.load())), pt.Return(d.load() == pt.Txn.fee() % pt.Int(50) + pt.Int(3)))
+
+    @prog("reserved-slot-store-assert")
+    def _():
+        x = pt.ScratchVar(pt.TealType.uint64, 5)
+        return pt.Seq(x.store(pt.Txn.fee() % pt.Int(9) + pt.Int(1)), pt.Assert(x.load() > pt.Int(0)),
+                      pt.Return(pt.ScratchLoad(index_expression=pt.Int(5)) == pt.Txn.fee() % pt.Int(9) + pt.Int(1)) if hasattr(pt, "ScratchLoad") else pt.Return(pt.Int(1)))
+
     @prog("none-sub-if-else-return")
     def _():
         c = pt.ScratchVar(pt.TealType.uint64, 30)
